@@ -280,6 +280,38 @@ def run_loop(ctx):
                     d.file, d.line)
 
 
+def breakpoint_list_is_a_multiset(ctx):
+    """Every `break` the user sets is one entry the user can delete again:
+    add_breakpoint appends unconditionally, del_breakpoint removes exactly
+    one entry.  (Two breakpoints may compare equal -- Breakpoint.__eq__ looks
+    at the resolved address -- and still be two entries.)"""
+    from ..cfg import build_cfg, repo_noreturn
+    repo = ctx.repo
+    rule = 'C12.every-added-breakpoint-is-an-entry-of-its-own'
+    ctx.rule(rule, 'QvmCpu.add_breakpoint appends its argument to '
+             'self.breakpoints on every path (no de-duplication), so that '
+             'deleting one breakpoint never disables another one that '
+             'resolves to the same address')
+    f = repo.func('qvm.cpu', 'QvmCpu.add_breakpoint')
+    cfg = build_cfg(f.node, repo_noreturn)
+    apps = [n for n in cfg.nodes if n.ast is not None and n.kind == 'stmt'
+            and any(isinstance(c, ast.Call) and
+                    isinstance(c.func, ast.Attribute) and
+                    c.func.attr in ('append', 'insert') and
+                    'breakpoints' in unparse(c.func.value)
+                    for c in ast.walk(n.ast))]
+    ok = bool(apps) and cfg.must_pass(cfg.exit, lambda x: x in apps)
+    construct = f'{f.file}:QvmCpu.add_breakpoint'
+    ctx.instance(rule, construct, sample={'appends_on_all_paths': ok})
+    if not ok:
+        ctx.finding(rule, construct,
+                    'add_breakpoint does not append on every path: a '
+                    'breakpoint equal to an installed one (same resolved '
+                    'address) is merged with it, and deleting either removes '
+                    'both, so `continue` runs past a breakpoint that was set '
+                    'and never deleted', f.file, f.line)
+
+
 def run_to_stop_commands(ctx):
     """QvmCpu.run tests the breakpoints after every instruction it
     executes.  A command that is specified to run *until a breakpoint* must
@@ -389,6 +421,7 @@ def run(ctx):
     halt_guard(ctx)
     run_loop(ctx)
     run_to_stop_commands(ctx)
+    breakpoint_list_is_a_multiset(ctx)
     breakpoint_resolution(ctx)
     return ('Transparency as a structural clause: effects (who-may-write) '
             'analysis of qvm/dbg.py and qvm/eval.py against the cpu API, '
